@@ -326,7 +326,10 @@ def r15_6(ctx):
             if attr == "_multicast" and g.short in ("ControllerApplication.start_network",):
                 ctx.ok(1)
                 continue
-            ctx.require(g.cls is not None and g.cls.name == "Multicast", f"{attr}:writer:{g.short}", f"{attr} modified in {g.short} ({kind})", func=g, node=n)
+            # a private helper class of the multicast module (a guard object that returns a claimed index on failure) acts for the controller:
+            # what it does is decided where it is used (R15.1 / R15.4 evaluate it as part of subscribe / unsubscribe)
+            helper = g.cls is not None and g.cls.name.startswith("_") and g.mod == MC
+            ctx.require(g.cls is not None and (g.cls.name == "Multicast" or helper), f"{attr}:writer:{g.short}", f"{attr} modified in {g.short} ({kind})", func=g, node=n)
     es, sl = statuses(ctx)
     dev = "bellows.zigbee.device"
     # the calls are identified by the value they are made on (self.device.application.multicast), whatever local it is held in
